@@ -34,9 +34,11 @@ def bits_of(labels, universe):
 
 def contexts_for(tier, seed, exh_quick=9, exh_thorough=12, rnd_quick=300, rnd_thorough=3000, big=None):
     k = exh_quick if tier == 'quick' else exh_thorough
-    out = list(gen.exh(k))
+    wide = gen.wide(seed)
+    out = wide[-1:]                       # the costliest case first, so that its shard starts first
+    out += list(gen.exh(k))
     out += gen.fam(big or (10 if tier == 'quick' else 12))
-    out += gen.wide(seed)
+    out += wide[:-1]
     out += gen.rnd(rnd_quick if tier == 'quick' else rnd_thorough, seed)
     return out
 
